@@ -13,8 +13,14 @@ from . import C03
 
 
 def tol_for(m, base=1e-9):
-    """Backend eigenvalue regularisation is modelled by its documented size (DESIGN 3.5-4)."""
-    return base + 100 * matreg.REG_SIZE[m.reg]
+    """Backend eigenvalue regularisation is modelled by its documented size (DESIGN 3.5-4): measured worst effects are 16 x
+    (tensortrax eigvalsh, 1.5e-8) and 7 x (jax models with a 1e-4 shift) of that size on the clauses it can touch."""
+    return base + (30 if matreg.REG_SIZE[m.reg] > 1e-6 else 100) * matreg.REG_SIZE[m.reg]
+
+
+def tol_elasticity(m, floor):
+    """Second derivatives: the jax models differentiate their (shifted) energy exactly, tensortrax' eigenvalue routine does not."""
+    return floor if matreg.REG_SIZE[m.reg] > 1e-6 else max(tol_for(m), floor)
 
 
 def special_rotations(rng, batch):
@@ -52,6 +58,10 @@ def case_model(name, rep):
         sv = C03.prior_state(m, um, rng, batch)
         mon = "material.invariance"
         tol = tol_for(m)
+        # clauses of the stress that the regularisation cannot touch: it shifts eigenvalues / entries of C = F^T F, which does not
+        # see a superposed rotation, and the stress stays F times a symmetric tensor (the second derivatives of the regularised
+        # eigenvalue routines are not exact derivatives of a perturbed scalar: the elasticity clauses keep the class tolerance)
+        tol_exact = 1e-9
         g = um.gradient([F, sv])
         P, svn = np.asarray(g[0], float), g[-1]
         A = np.broadcast_to(np.asarray(um.hessian([F, sv])[0], float), (3, 3, 3, 3) + batch)
@@ -62,20 +72,20 @@ def case_model(name, rep):
         QF = MM.mm(Q, F)
         gq = um.gradient([QF, sv])
         Pq = np.asarray(gq[0], float)
-        run.compare(mon, "model=%s clause=objectivity" % name, maxabs(Pq - MM.mm(Q, P)) / sP, tol,
+        run.compare(mon, "model=%s clause=objectivity" % name, maxabs(Pq - MM.mm(Q, P)) / sP, tol_exact,
                     "%s: P(QF) != Q P(F)" % name, unit=name + ":objectivity", config=(name, "objectivity"),
                     sample={"model": name, "params": {k: v for k, v in p.items() if not hasattr(v, "shape")}, "clause": "objectivity"})
         if svn is not None and gq[-1] is not None and np.size(svn):
             ssv = max(maxabs(svn), 1e-300)
-            run.compare(mon, "model=%s clause=objectivity-statevars" % name, maxabs(np.asarray(gq[-1]) - np.asarray(svn)) / ssv, max(tol, 1e-8),
+            run.compare(mon, "model=%s clause=objectivity-statevars" % name, maxabs(np.asarray(gq[-1]) - np.asarray(svn)) / ssv, 1e-8,
                         "%s: updated state variables change under a superposed rigid rotation" % name, unit=name + ":objectivity")
         Aq = np.broadcast_to(np.asarray(um.hessian([QF, sv])[0], float), (3, 3, 3, 3) + batch)
         Aref = np.einsum("ia...,kc...,ajcl...->ijkl...", Q, Q, A)
-        run.compare(mon, "model=%s clause=objectivity-elasticity" % name, maxabs(Aq - Aref) / sA, max(tol, 1e-8),
+        run.compare(mon, "model=%s clause=objectivity-elasticity" % name, maxabs(Aq - Aref) / sA, tol_elasticity(m, 1e-8),
                     "%s: A(QF) != Q Q : A(F)" % name, unit=name + ":objectivity-elasticity", config=(name, "objectivity-A"))
         # 2 Kirchhoff stress symmetric
         tau = MM.mmT(P, F)
-        run.compare(mon, "model=%s clause=kirchhoff-symmetric" % name, maxabs(tau - np.swapaxes(tau, 0, 1)) / sA, tol,
+        run.compare(mon, "model=%s clause=kirchhoff-symmetric" % name, maxabs(tau - np.swapaxes(tau, 0, 1)) / sA, tol_exact,
                     "%s: P F^T is not symmetric" % name, unit=name + ":tau-symmetric", config=(name, "tau"))
         # 3 stress-free virgin reference
         I = np.eye(3).reshape(3, 3, 1, 1).copy()
@@ -87,7 +97,7 @@ def case_model(name, rep):
                     config=(name, "stress-free"), detail={"P(I)": P0[..., 0, 0]})
         # 4 major symmetry
         if m.hyperelastic:
-            run.compare(mon, "model=%s clause=major-symmetry" % name, maxabs(A - A.transpose(2, 3, 0, 1, 4, 5)) / sA, max(tol, 1e-9),
+            run.compare(mon, "model=%s clause=major-symmetry" % name, maxabs(A - A.transpose(2, 3, 0, 1, 4, 5)) / sA, tol_elasticity(m, 1e-9),
                         "%s: elasticity tensor of a hyperelastic model lacks major symmetry" % name, unit=name + ":major-symmetry",
                         config=(name, "major"))
         # 5 material isotropy (scalar or no state variables only: tensor-valued states would have to be rotated as well)
@@ -127,8 +137,9 @@ SPEC = {
     "rule": ("48 finite-strain registry entries x random admissible parameters x deformation gradients R Q diag(lambda) Q^T (lambda in "
              "[0.75,1.4], distinct) x Haar rotations plus a 180-degree and a near-identity rotation; state variables reached through a "
              "random prior history; a configuration is distinct by (model, clause)"),
-    "assumptions": ["models whose source perturbs eigenvalues are allowed 20 x the documented perturbation (1.5e-8 tensortrax eigvalsh, 1e-4 "
-                    "jax storakers/extended_tube/morph)", "material isotropy is asserted for isotropic non-micro-sphere models with scalar or no "
+    "assumptions": ["models whose source perturbs eigenvalues are allowed 100 x (tensortrax eigvalsh, 1.5e-8) resp. 30 x (jax storakers/extended_tube/"
+                    "morph, 1e-4) the documented perturbation on the clauses it can touch (stress-free reference, isotropy, tensortrax second "
+                    "derivatives); objectivity and the symmetry of P F^T are judged at 1e-9 for every model", "material isotropy is asserted for isotropic non-micro-sphere models with scalar or no "
                     "state variables"],
     "jobs": {"quick": 12, "thorough": 16},
     "timeout": {"quick": 1200, "thorough": 5400},
